@@ -917,6 +917,13 @@ def r13_3_reconcile_shape(ctx, rule: str = 'R13.3') -> List[Ob]:
             a0 = n.elt.args[0]
             if isinstance(a0, ast.Call) and C.dotted(a0.func) == 'np.unique' and ast.unparse(a0.args[0]) == f"{n.generators[0].target.id}.spikes":
                 good = True
+                # ... on the train's own edges (a single number as `edges` means [0, number])
+                v_ = n.generators[0].target.id
+                e_ = n.elt.args[1] if len(n.elt.args) > 1 else next((k.value for k in n.elt.keywords if k.arg == 'edges'), None)
+                own_edges = isinstance(e_, (ast.List, ast.Tuple)) and [ast.unparse(x) for x in e_.elts] == [f"{v_}.t_start", f"{v_}.t_end"]
+                t_e = "reconcile_spike_trains: every rebuilt train keeps its own edges [t_start, t_end] until the common interval is applied"
+                obs.append(ok(rule, t_e, f.loc(n), construct=f"{fn}::own-edges") if own_edges else
+                           violation(rule, t_e, f.loc(n), key=f"{fn}::own-edges", detail=f"edges argument: `{ast.unparse(e_) if e_ is not None else 'missing'}`"))
     obs.append(ok(rule, t, f.loc(), construct=f"{fn}::unique") if good else violation(rule, t, f.loc(), key=f"{fn}::sort-dedup"))
     # (b) global edges: min of starts, max of ends
     env = Env()
@@ -970,6 +977,61 @@ def r13_3_reconcile_shape(ctx, rule: str = 'R13.3') -> List[Ob]:
                 if co and co[0] > 0:
                     hi_ok = True      # t - bound < 0
         return lo_ok and hi_ok and len(conj) == 2
+    # the bounds themselves: common start minus the slack, common end plus the slack, the slack being the constant 1e-6 of the
+    # definition (a slack that scales with an edge changes sign with it and vanishes at 0)
+    edge_names = {}
+    for n in ast.walk(src):
+        if isinstance(n, ast.Assign) and len(n.targets) == 1 and isinstance(n.targets[0], ast.Name) and isinstance(n.value, ast.Call) \
+                and isinstance(n.value.func, ast.Name) and n.value.func.id in ('min', 'max'):
+            edge_names.setdefault(n.value.func.id, n.targets[0].id)
+    consts = {}
+    stores_ = {}
+    for n in ast.walk(src):
+        if isinstance(n, ast.Name) and isinstance(n.ctx, ast.Store):
+            stores_[n.id] = stores_.get(n.id, 0) + 1
+    for n in ast.walk(src):
+        if isinstance(n, ast.Assign) and len(n.targets) == 1 and isinstance(n.targets[0], ast.Name) and stores_.get(n.targets[0].id) == 1 \
+                and not (isinstance(n.value, ast.Call) and isinstance(n.value.func, ast.Name) and n.value.func.id in ('min', 'max')) \
+                and not isinstance(n.value, (ast.ListComp, ast.List, ast.GeneratorExp)):
+            try:
+                consts[n.targets[0].id] = C.canon_expr(n.value, env)
+            except C.CanonError:
+                pass
+    # (module-level numeric constants, bound once, count as their value)
+    try:
+        mtree = repo.module('pyspike.spikes').tree
+        mcount = {}
+        for st_ in mtree.body:
+            if isinstance(st_, ast.Assign):
+                for tg_ in st_.targets:
+                    if isinstance(tg_, ast.Name):
+                        mcount[tg_.id] = mcount.get(tg_.id, 0) + 1
+        for st_ in mtree.body:
+            if isinstance(st_, ast.Assign) and len(st_.targets) == 1 and isinstance(st_.targets[0], ast.Name) \
+                    and mcount.get(st_.targets[0].id) == 1 and st_.targets[0].id not in stores_ \
+                    and isinstance(st_.value, ast.Constant) and isinstance(st_.value.value, (int, float)) \
+                    and not isinstance(st_.value.value, bool):
+                consts.setdefault(st_.targets[0].id, C.canon_expr(st_.value, Env()))
+    except Exception:
+        pass
+    for k_, v_ in consts.items():
+        env.set(k_, v_)
+    bounds_detail = ''
+
+    def bounds_ok(conj, var_src: str) -> bool:
+        nonlocal bounds_detail
+        if set(edge_names) != {'min', 'max'}:
+            bounds_detail = 'common start / end not found as `x = min(...)` / `y = max(...)`'
+            return False
+        want_src = f"({edge_names['min']} - 1e-06 < {var_src}) and ({var_src} < {edge_names['max']} + 1e-06)"
+        e2 = Env()
+        want = C.canon_cond(ast.parse(want_src, mode='eval').body, e2)
+        wconj = want[1] if want[0] == 'and' else [want]
+        if set(wconj) == set(conj):
+            return True
+        bounds_detail = f"found {' and '.join(C.show(x) for x in conj)}; expected {' and '.join(C.show(x) for x in wconj)}"
+        return False
+    bounds_good = None
     for n in ast.walk(src):
         if isinstance(n, ast.ListComp) and n.generators and n.generators[0].ifs and isinstance(n.elt, ast.Name):
             try:
@@ -978,6 +1040,8 @@ def r13_3_reconcile_shape(ctx, rule: str = 'R13.3') -> List[Ob]:
                 continue
             conj = c[1] if c[0] == 'and' else [c]
             good = two_sided(conj, n.elt.id)
+            if good:
+                bounds_good = bounds_ok(conj, n.elt.id)
         elif isinstance(n, ast.Subscript) and isinstance(n.value, (ast.Name, ast.Attribute)) and isinstance(n.ctx, ast.Load):
             # the same selection on an array: `x[(lo < x) & (x < hi)]` / `x[np.logical_and(lo < x, x < hi)]`
             m = n.slice
@@ -993,7 +1057,14 @@ def r13_3_reconcile_shape(ctx, rule: str = 'R13.3') -> List[Ob]:
                 except C.CanonError:
                     continue
                 good = base_atom is not None and two_sided(conj, base_atom)
+                if good:
+                    bounds_good = bounds_ok(conj, ast.unparse(n.value))
     obs.append(ok(rule, t, f.loc(), construct=f"{fn}::clip") if good else violation(rule, t, f.loc(), key=f"{fn}::clipping"))
+    if good:
+        t2 = ("reconcile_spike_trains: the bounds of the selection are the common start minus and the common end plus the constant "
+              "slack 1e-6 of the definition")
+        obs.append(ok(rule, t2, f.loc(), construct=f"{fn}::clip-bounds") if bounds_good else
+                   violation(rule, t2, f.loc(), key=f"{fn}::clipping-bounds", detail=bounds_detail))
     # (c') the selected spike times are what the new trains hold: between the selection and the SpikeTrain constructor (or
     # the attribute store that feeds it) nothing but copies - a call that maps the selected times to other values (np.clip,
     # np.round, arithmetic) can make two distinct times equal after the duplicates were removed
@@ -1186,4 +1257,127 @@ def r06_aggregation(ctx, rule_dc: str = 'R06.2', rule_norm: str = 'R06.3') -> Li
                     obs.append(ok(rule_norm, t, f.loc(lp), construct=f"{_fn(f)}::pooled"))
                 else:
                     obs.append(violation(rule_norm, t, f.loc(lp), key=f"{_fn(f)}::pooled-sums", detail=f"accumulators {accs}, ratios {[ast.unparse(r) for r in ratio]}"))
+    return obs
+
+
+# ======================================================================================
+# R20.4 generate_poisson_spikes: sorted, inside the requested interval, on its edges
+# ======================================================================================
+def r20_4_poisson(ctx, rule: str = 'R20.4') -> List[Ob]:
+    """The generated spike times are  T_start + cumsum(draws)  restricted to the values below T_end, handed to SpikeTrain
+    together with the interval as given.  Decided on the value the returned train is built from:
+        spikes = s + B[B' < U]   (s: what is added after the selection, possibly nothing)
+    requires  B' == B,  B + s == T_start + cumsum(draws)  and  U + s == T_end  - then exactly the generated times below
+    T_end are kept and none lies outside [T_start, T_end); the draws are non-negative (np.random.exponential), so the
+    cumulated times are non-decreasing."""
+    repo = ctx.repo
+    if not repo.has_func('pyspike.spikes', 'generate_poisson_spikes'):
+        return [inconclusive(rule, "generate_poisson_spikes is found", 'pyspike/spikes.py', construct='generate_poisson_spikes')]
+    f = repo.func('pyspike.spikes', 'generate_poisson_spikes')
+    fn = _fn(f)
+    obs: List[Ob] = []
+    t = ("generate_poisson_spikes: the train is built from T_start + cumsum(draws), restricted to the times below T_end (every "
+         "generated time inside the requested interval, none beyond its end)")
+    params = [a.arg for a in f.node.args.args]
+    if len(params) < 2:
+        return [inconclusive(rule, t, f.loc(), 'two parameters (rate, interval) expected', construct=fn)]
+    iv = params[1]
+    env = Env()
+    # names bound inside compound statements (the interval unpacking under try/except, the top-up loop) stay symbolic
+    ret = None
+    for st in f.node.body:
+        if isinstance(st, ast.Assign) and len(st.targets) == 1 and isinstance(st.targets[0], ast.Name):
+            try:
+                env.set(st.targets[0].id, C.canon_expr(st.value, env))
+            except C.CanonError:
+                env.unset(st.targets[0].id)
+        elif isinstance(st, ast.Return):
+            ret = st
+        elif isinstance(st, ast.Expr):
+            continue
+        else:
+            for n in ast.walk(st):
+                if isinstance(n, ast.Name) and isinstance(n.ctx, ast.Store):
+                    env.unset(n.id)
+    if ret is None or not (isinstance(ret.value, ast.Call) and C.dotted(ret.value.func) == 'SpikeTrain' and len(ret.value.args) >= 2):
+        return [inconclusive(rule, t, f.loc(), 'the function ends in `return SpikeTrain(<spikes>, <interval>)`', construct=fn)]
+    # the two edges: the names the interval is unpacked into
+    start = end = None
+    for n in ast.walk(f.node):
+        if isinstance(n, ast.Assign) and len(n.targets) == 1 and isinstance(n.targets[0], ast.Name) and isinstance(n.value, ast.Subscript) \
+                and isinstance(n.value.value, ast.Name) and n.value.value.id == iv and isinstance(n.value.slice, ast.Constant):
+            if n.value.slice.value == 0:
+                start = n.targets[0].id
+            elif n.value.slice.value == 1:
+                end = n.targets[0].id
+        elif isinstance(n, ast.Assign) and len(n.targets) == 1 and isinstance(n.targets[0], ast.Tuple) and isinstance(n.value, ast.Name) \
+                and n.value.id == iv and len(n.targets[0].elts) == 2 and all(isinstance(e, ast.Name) for e in n.targets[0].elts):
+            start, end = n.targets[0].elts[0].id, n.targets[0].elts[1].id
+    if not start or not end:
+        return [inconclusive(rule, t, f.loc(), 'the interval is unpacked into a start and an end name', construct=fn)]
+    try:
+        val = C.canon_expr(ret.value.args[0], env)
+        edges = C.canon_expr(ret.value.args[1], env)
+    except C.CanonError as e:
+        return [inconclusive(rule, t, f.loc(), str(e), construct=fn)]
+    S, E = C.atom(('n', start)), C.atom(('n', end))
+    # spikes = s + 1 * sub(B, mask)
+    sel = [(m, c) for m, c in val[1] if len(m) == 1 and m[0][0] == 'sub' and c == 1]
+    if len(sel) != 1:
+        obs.append(violation(rule, t, f.loc(ret), key=f"{fn}::poisson::no-truncation",
+                             detail=f"the returned spike times are {C.show(val)[:200]}: no selection of the times below the end"))
+        return obs
+    subatom = sel[0][0][0]
+    s_out = C.sub(val, C.atom(subatom))
+    base, mask = subatom[1], subatom[2]
+    B = base[1] if base[0] == 'expr' else C.atom(base)
+    ma = C.single_atom(mask) if C.is_poly(mask) else mask
+    good = False
+    detail = f"spike times: {C.show(val)[:240]}"
+    draws_name = None
+    if ma is not None and ma[0] == 'cmp' and ma[1] in ('lt',):
+        p = ma[2]                       # p < 0
+        total = C.add(B, s_out)         # the values that end up in the train
+        # p == total - T_end  (the selected values, as stored, are the ones below the end)
+        cond_ok = p == C.sub(total, E)
+        # total == T_start + cumsum(draws)
+        cs = [m[0] for m, c in total[1] if len(m) == 1 and m[0][0] == 'call' and m[0][1] in ('np.cumsum', 'cumsum') and c == 1]
+        shape_ok = len(cs) == 1 and C.sub(total, C.atom(cs[0])) == S
+        if cs:
+            a0 = cs[0][2][0] if cs[0][2] else None
+            sa0 = C.single_atom(a0) if a0 is not None and C.is_poly(a0) else None
+            draws_name = sa0[1] if sa0 and sa0[0] == 'n' else None
+        good = cond_ok and shape_ok
+        if not cond_ok:
+            detail += f"\nkept when ({C.show(p)} < 0), but the stored values are below the end when ({C.show(C.sub(total, E))} < 0)"
+        if not shape_ok:
+            detail += f"\nstored values {C.show(total)[:160]} are not {start} + cumsum(draws)"
+    obs.append(ok(rule, t, f.loc(ret), construct=f"{fn}::poisson::truncation") if good else
+               violation(rule, t, f.loc(ret), key=f"{fn}::poisson::truncation", detail=detail))
+    t2 = "generate_poisson_spikes: the train carries the requested interval as given"
+    obs.append(ok(rule, t2, f.loc(ret), construct=f"{fn}::poisson::edges") if edges == C.atom(('n', iv)) else
+               violation(rule, t2, f.loc(ret), key=f"{fn}::poisson::edges", detail=f"edges argument: {C.show(edges)[:120]}"))
+    # the increments are non-negative draws: every definition of the cumulated array is np.random.exponential(..) or an
+    # np.append of itself with such a draw
+    t3 = "generate_poisson_spikes: the cumulated increments are exponential draws (non-negative), so the spike times are non-decreasing"
+    if draws_name:
+        defs = [n for n in ast.walk(f.node) if isinstance(n, ast.Assign) and len(n.targets) == 1 and isinstance(n.targets[0], ast.Name)
+                and n.targets[0].id == draws_name]
+
+        def is_draw(e) -> bool:
+            return isinstance(e, ast.Call) and (C.dotted(e.func) or '').endswith('random.exponential')
+
+        def okdef(v) -> bool:
+            if is_draw(v):
+                return True
+            if isinstance(v, ast.Call) and (C.dotted(v.func) or '') in ('np.append', 'np.concatenate') and v.args:
+                parts = v.args if (C.dotted(v.func) or '') == 'np.append' else (v.args[0].elts if isinstance(v.args[0], (ast.Tuple, ast.List)) else [])
+                return bool(parts) and all(is_draw(x) or (isinstance(x, ast.Name) and x.id == draws_name) for x in parts)
+            return False
+        allok = bool(defs) and all(okdef(d.value) for d in defs)
+        obs.append(ok(rule, t3, f.loc(), construct=f"{fn}::poisson::draws") if allok else
+                   violation(rule, t3, f.loc(defs[0] if defs else None), key=f"{fn}::poisson::draws",
+                             detail='; '.join(ast.unparse(d)[:80] for d in defs)))
+    else:
+        obs.append(inconclusive(rule, t3, f.loc(), 'the cumulated array is not a plain local', construct=f"{fn}::poisson::draws"))
     return obs
